@@ -14,8 +14,8 @@ import (
 	"os"
 	"path/filepath"
 	"regexp"
-	"sort"
 	"runtime/debug"
+	"sort"
 	"strconv"
 	"strings"
 	"sync"
@@ -42,6 +42,8 @@ type Config struct {
 	Frag    int    `json:"frag"`     // network fragmentation: reads return 1..frag bytes (0 = whole)
 	ChanCap int    `json:"chan_cap"` // capacity of the operator channels
 	Steps   int    `json:"steps"`
+	// CoarseDisk: every version of the template file gets the same modification time
+	CoarseDisk bool `json:"coarse_disk,omitempty"`
 }
 
 // Action is one macro-step stimulus.
